@@ -90,9 +90,9 @@ Print Assumptions C05_code_is_model.
    (Gen/C05_code.v; generate.PROJECTION = 1 is checked by the translator): the absolute value of the cosine of the
    jitter latitude times the product of the distribution weights - for every latitude, beyond +-90 degrees too, where
    the cosine itself is negative *)
-Theorem C05_code_projection_weight : forall (T : Type) (O : Ops T) (dtheta : cs (T:=T)) w0,
-  code_projection_weight O dtheta w0 = mul O (absv O (c_ dtheta)) w0.
-Proof. reflexivity. Qed.
+Theorem C05_code_projection_weight : forall (dtheta : cs (T:=R)) w0,
+  code_projection_weight ROps dtheta w0 = Rabs (c_ dtheta) * w0.
+Proof. intros. unfold code_projection_weight. cbn [mul absv ROps]. ring. Qed.   (* [ring]: the order of the factors is free *)
 Print Assumptions C05_code_projection_weight.
 Theorem C05_code_projection_abs_cos : forall t w0,
   code_projection_weight ROps (CS (cos t) (sin t)) w0 = Rabs (cos t) * w0.
@@ -100,7 +100,7 @@ Proof. intros. rewrite C05_code_projection_weight. reflexivity. Qed.
 Print Assumptions C05_code_projection_abs_cos.
 Theorem C05_code_projection_nonneg : forall (dtheta : cs (T:=R)) w0, 0 <= w0 -> 0 <= code_projection_weight ROps dtheta w0.
 Proof.
-  intros dtheta w0 H. rewrite C05_code_projection_weight. cbn [mul absv ROps].
+  intros dtheta w0 H. rewrite C05_code_projection_weight.
   apply Rmult_le_pos; [apply Rabs_pos | exact H].
 Qed.
 Print Assumptions C05_code_projection_nonneg.
